@@ -38,6 +38,32 @@ MENTIONS = {
     '[n m]':     None,   # two mentions in one set, expanded below
     '[n=v n]':   None,
     '[n n=v]':   None,
+    # doubled (repeated) shorthand operator: still a class / id mention; 'multiple' selects the `name*` entry of
+    # markup.attributes when there is one (clause attr-doubled-shorthand-name-maps)
+    '..c':       {'name': 'class', 'value': 'c', 'vt': 'raw', 'multiple': True},
+    '..d':       {'name': 'class', 'value': 'd', 'vt': 'raw', 'multiple': True},
+    '...c':      {'name': 'class', 'value': 'c', 'vt': 'raw', 'multiple': True},
+    '##i':       {'name': 'id', 'value': 'i', 'vt': 'raw', 'multiple': True},
+    '##j':       {'name': 'id', 'value': 'j', 'vt': 'raw', 'multiple': True},
+    # both modifiers on one attribute, a modifier together with a value (clause attr-modifier-combinations)
+    '[!n.]':     {'name': 'n', 'value': None, 'vt': 'raw', 'boolean': True, 'implied': True},
+    '[!m.]':     {'name': 'm', 'value': None, 'vt': 'raw', 'boolean': True, 'implied': True},
+    '[!n.=v]':   {'name': 'n', 'value': 'v', 'vt': 'raw', 'boolean': True, 'implied': True},
+    '[n.=v]':    {'name': 'n', 'value': 'v', 'vt': 'raw', 'boolean': True},
+    '[!n=v]':    {'name': 'n', 'value': 'v', 'vt': 'raw', 'implied': True},
+    '[!n.={e}]': {'name': 'n', 'value': 'e', 'vt': 'expr', 'boolean': True, 'implied': True},
+    '[!n.=""]':  {'name': 'n', 'value': '', 'vt': 'quoted', 'boolean': True, 'implied': True},
+    '[!hidden.]': {'name': 'hidden', 'value': None, 'vt': 'raw', 'boolean': True, 'implied': True},   # listed by default
+    '[!n. m=1]': None,
+    '[m=1 !n.]': None,
+    '[!n. !m.]': None,
+    '[n. !n]':   None,
+}
+# kinds that stand for several mentions written inside one attribute set
+SET_MEMBERS = {
+    '[n m]': ['[n]', '[m]'], '[n=v n]': ['[n=v]', '[n]'], '[n n=v]': ['[n]', '[n=v]'],
+    '[!n. m=1]': ['[!n.]', '[m=1]'], '[m=1 !n.]': ['[m=1]', '[!n.]'], '[!n. !m.]': ['[!n.]', '[!m.]'],
+    '[n. !n]': ['[n.]', '[!n]'],
 }
 EXHAUSTIVE_KINDS = ['#i', '.c', '.d', '[n=v]', '[n="v w"]', '[n]', '[n.]', '[!n]', '[n={e}]', '[m=1]', '[n=""]', '#j']
 EXTRA_KINDS = ["[n='x']", '[m]', '[class=k]', '[id=z]', '[!m=2]', '[for=f]', '[onClick=h]', '[id]', '[n=${1:t}]']
@@ -46,15 +72,20 @@ SET_KINDS = ['[n m]', '[n=v n]', '[n n=v]']          # several mentions inside o
 DROPPED = 'DROPPED'
 
 # attribute name overrides of the syntaxes, as documented in emmet/config.py SYNTAX_CONFIG (jsx: class ->
-# className, for -> htmlFor; `class*` entries concern the `..x` shorthand, which is not generated here)
+# className, for -> htmlFor; the `class*` entries, which concern the `..x` shorthand, are in SYNTAX_ATTR_MAP_STAR)
 SYNTAX_ATTR_MAP = {'jsx': {'class': 'className', 'for': 'htmlFor'}}
+# the `name*` entries of the same documented tables: the name of an attribute written with a doubled shorthand
+SYNTAX_ATTR_MAP_STAR = {'jsx': {'class*': 'styleName'}, 'vue': {'class*': ':class'}}
 SYNTAX_SELFCLOSE = {'html': 'html', 'jsx': 'html', 'vue': 'html', 'xml': 'xml'}
 
 
-def spec_attrs(mentions, syntax, options):
+def spec_attrs(mentions, syntax, options, strict_implied=False):
     """[(output name, {acceptable renderings})] in the order required by the statement.
     A rendering is ('q', value) (between the configured quotes), ('e', value) (between braces),
-    ('bare',) (name only) or DROPPED."""
+    ('bare',) (name only) or DROPPED.  The output name is a string, or a tuple of acceptable names where the
+    statement is silent (an attribute merged from doubled and plain shorthand mentions).
+    strict_implied: an attribute all of whose mentions are implied and valueless has the single acceptable rendering
+    DROPPED, whatever other modifier (`name.`, listed boolean) it carries."""
     reverse = bool(options.get('output.reverseAttributes'))
     compact = bool(options.get('output.compactBoolean'))
     listed = options.get('output.booleanAttributes')
@@ -65,6 +96,7 @@ def spec_attrs(mentions, syntax, options):
     case = options.get('output.attributeCase') or ''
     style = options.get('output.selfClosingStyle') or SYNTAX_SELFCLOSE[syntax]
     amap = dict(SYNTAX_ATTR_MAP.get(syntax, {}))
+    amap.update(SYNTAX_ATTR_MAP_STAR.get(syntax, {}))
     if 'markup.attributes' in options:
         amap = dict(options['markup.attributes'])      # user options replace the syntax default (one dict key)
 
@@ -79,14 +111,24 @@ def spec_attrs(mentions, syntax, options):
     res = []
     for name in order:
         ms = groups[name]
-        outname = amap.get(name, name)        # "attribute names are mapped through markup.attributes"
+        plain = amap.get(name, name)          # "attribute names are mapped through markup.attributes"
+        names = []
+        if not all(m.get('multiple') for m in ms):
+            names.append(plain)
+        if any(m.get('multiple') for m in ms):
+            # a doubled shorthand (`..x`, `##x`) is looked up under `name*` first; without such an entry it is an ordinary
+            # mention of `name`.  Mixed doubled / plain mentions of one attribute: silent, both names acceptable
+            star = amap.get(name + '*') or plain
+            if star not in names:
+                names.append(star)
         if case == 'upper':
-            outname = outname.upper()
+            names = [x.upper() for x in names]
         elif case == 'lower':
-            outname = outname.lower()
+            names = [x.lower() for x in names]
+        outname = names[0]
         if name == 'class':
             # "repeated class mentions are joined by single spaces in the order written"
-            res.append((outname, {('q', ' '.join(m['value'] for m in ms))}))
+            res.append((outname if len(names) == 1 else tuple(names), {('q', ' '.join(m['value'] for m in ms))}))
             continue
         # "for any other repeated attribute the last value wins (the first one under output.reverseAttributes)"
         seq = ms if reverse else ms[::-1]
@@ -105,8 +147,11 @@ def spec_attrs(mentions, syntax, options):
             for boolean in {b_all, b_any}:              # silent: which mention's flag survives a merge
                 for implied in {i_all, i_any}:
                     for is_expr in {vt == 'expr', e_any}:
-                        acc |= _render(value, boolean, implied, is_expr, compact, style, outname, name)
-        res.append((outname, acc))
+                        for oname in names:
+                            acc |= _render(value, boolean, implied, is_expr, compact, style, oname, name)
+        if strict_implied and i_all and all(m['value'] is None for m in ms):
+            acc = {DROPPED}                             # "implied attributes (`!name`) without value are dropped"
+        res.append((outname if len(names) == 1 else tuple(names), acc))
     return res
 
 
@@ -132,6 +177,8 @@ def _render(value, boolean, implied, is_expr, compact, style, outname, name):
 
 
 def _eq_name(a, b, case):
+    if isinstance(b, tuple):
+        return any(_eq_name(a, x, case) for x in b)
     return a.lower() == b.lower() if case else a == b
 
 
@@ -153,7 +200,7 @@ def compare_attrs(actual, expected, options):
                 return 'attribute %r is quoted with the wrong quote character (%s)' % (aname, kind)
             ok = form in acc
             if not ok and case and form[0] in 'qe':
-                ok = any(f != DROPPED and f[0] == form[0] and f[1].lower() == value.lower() and f[1].lower() == outname.lower()
+                ok = any(f != DROPPED and f[0] == form[0] and f[1].lower() == value.lower() and _eq_name(f[1], outname, case)
                          for f in acc)                  # boolean expansion follows the cased name
             if not ok:
                 return 'attribute %r comes out as %r, acceptable per statement: %s' % (aname, form, sorted(map(repr, acc)))
@@ -170,15 +217,8 @@ def compare_attrs(actual, expected, options):
 def _mentions_of(kinds):
     ms = []
     for k in kinds:
-        if k == '[n m]':
-            ms.append(MENTIONS['[n]'])
-            ms.append(MENTIONS['[m]'])
-        elif k == '[n=v n]':
-            ms.append(MENTIONS['[n=v]'])
-            ms.append(MENTIONS['[n]'])
-        elif k == '[n n=v]':
-            ms.append(MENTIONS['[n]'])
-            ms.append(MENTIONS['[n=v]'])
+        if k in SET_MEMBERS:
+            ms.extend(MENTIONS[x] for x in SET_MEMBERS[k])
         else:
             ms.append(MENTIONS[k])
     return ms
@@ -205,8 +245,11 @@ def _expand(abbr, syntax, options):
 
 def check_seq(kinds, syntax, options, selfclose):
     """one element `p` + the mentions written in the given order"""
+    return _check_seq(kinds, syntax, effective(syntax, options), selfclose, False)
+
+
+def _check_seq(kinds, syntax, options, selfclose, strict_implied):
     abbr = 'p' + ''.join(kinds) + ('/' if selfclose else '')
-    options = effective(syntax, options)
     out = _expand(abbr, syntax, options)
     try:
         toks = parse_markup(out)
@@ -215,7 +258,7 @@ def check_seq(kinds, syntax, options, selfclose):
     want_types = ['open'] if selfclose else ['open', 'close']
     if [t['type'] for t in toks] != want_types or toks[0]['name'] != 'p':
         return '%s (%s) -> %r: expected exactly one <p> element' % (abbr, syntax, out)
-    what = compare_attrs(toks[0]['attrs'], spec_attrs(_mentions_of(kinds), syntax, options), options)
+    what = compare_attrs(toks[0]['attrs'], spec_attrs(_mentions_of(kinds), syntax, options, strict_implied), options)
     if what:
         return '%s (%s, %r) -> %r: %s' % (abbr, syntax, options, out, what)
     return None
@@ -224,11 +267,14 @@ def check_seq(kinds, syntax, options, selfclose):
 def check_multi(elems, syntax, options):
     """elems: [[tag name ('' = implied), [kinds], count]] rendered as  e0>e1+e2...; every element must carry
     exactly its own attributes"""
+    return _check_multi(elems, syntax, effective(syntax, options), False)
+
+
+def _check_multi(elems, syntax, options, strict_implied):
     parts = []
     for name, kinds, count in elems:
         parts.append(name + ''.join(kinds) + ('*%d' % count if count > 1 else ''))
     abbr = parts[0] + ('>' + '+'.join(parts[1:]) if len(parts) > 1 else '')
-    options = effective(syntax, options)
     out = _expand(abbr, syntax, options)
     try:
         toks = [t for t in parse_markup(out) if t['type'] == 'open']
@@ -245,10 +291,146 @@ def check_multi(elems, syntax, options):
     for t, (name, kinds) in zip(toks, expected):
         if name and t['name'] != name:
             return '%s (%s) -> %r: element <%s> where <%s> was expected' % (abbr, syntax, out, t['name'], name)
-        what = compare_attrs(t['attrs'], spec_attrs(_mentions_of(kinds), syntax, options), options)
+        what = compare_attrs(t['attrs'], spec_attrs(_mentions_of(kinds), syntax, options, strict_implied), options)
         if what:
             return '%s (%s, %r) -> %r: element <%s>: %s' % (abbr, syntax, options, out, t['name'], what)
     return None
+
+
+# ---------------------------------------------------------------------------------------------
+# doubled shorthands under user-supplied name tables (with and without `name*` entries)
+
+DOUBLED_KINDS = ['..c', '..d', '##i', '##j', '...c', '.c', '.d', '#i', '[class=k]', '[id=z]', '[n=v]', '[for=f]']
+# `markup.attributes` tables: None = the table of the active syntax; tables with a plain entry only, a `name*` entry only, both, neither
+NAME_TABLES = [
+    None,
+    {'class': 'className', 'for': 'htmlFor', 'id': 'key'},
+    {'class*': 'mods', 'id*': 'ids'},
+    {'class': 'cls', 'class*': 'mods', 'id': 'key'},
+    {'n': 'data-n', 'id*': 'ID2', 'class': 'klass'},
+    {},
+]
+DOUBLED_OPTION_ROWS = [
+    {},
+    {'output.attributeQuotes': 'single', 'output.attributeCase': 'upper'},
+    {'output.reverseAttributes': True},
+    {'output.selfClosingStyle': 'xml', 'output.compactBoolean': True, 'output.booleanAttributes': ['n']},
+]
+
+
+def table_options(syntax, options):
+    """option row of the doubled-shorthand clause as handed to the library.  html / xml have no table of their own: a
+    user table is handed over exactly as given (so a table without `class*` really has none).  jsx / vue: merged with the
+    syntax table as in effective().  jsx additionally defines `markup.valuePrefix` for `class*` (`..a` -> `{styles.a}`);
+    value prefixes are not part of C03 ("values appear verbatim"), so they are switched off by an explicit empty table."""
+    opts = effective(syntax, options) if syntax in ('jsx', 'vue') else dict(options)
+    if syntax == 'jsx':
+        opts['markup.valuePrefix'] = {}
+    return opts
+
+
+def check_doubled(kinds, syntax, options, selfclose):
+    """one element `p` + mentions including doubled shorthands (`..c`, `##i`, `...c`) under a name table"""
+    return _check_seq(kinds, syntax, table_options(syntax, options), selfclose, True)
+
+
+def check_doubled_multi(elems, syntax, options):
+    """several elements, each with its own (doubled) shorthands: every tag carries exactly its own attributes under
+    the mapped names"""
+    return _check_multi(elems, syntax, table_options(syntax, options), True)
+
+
+def doubled_cases(kinds, maxlen, full_upto, per_seq):
+    rows = []
+    for t in NAME_TABLES:
+        for o in DOUBLED_OPTION_ROWS:
+            r = dict(o)
+            if t is not None:
+                r['markup.attributes'] = t
+            rows.append(r)
+    return seq_cases(kinds, maxlen, SYNTAXES, rows, full_upto=full_upto, per_seq=per_seq)
+
+
+def doubled_multi_cases(rng, n):
+    names = ['div', 'p', 'em', 'x-y', '']
+    for _ in range(n):
+        elems = []
+        for i in range(rng.randint(2, 4)):
+            ks = [rng.choice(DOUBLED_KINDS) for _ in range(rng.randint(0, 3))]
+            name = rng.choice(names)
+            if not name and not ks:
+                name = 'p'
+            elems.append([name, ks, rng.choice([1, 1, 1, 2])])
+        o = dict(rng.choice(DOUBLED_OPTION_ROWS))
+        t = rng.choice(NAME_TABLES)
+        if t is not None:
+            o['markup.attributes'] = t
+        yield (elems, rng.choice(SYNTAXES), o)
+
+
+# ---------------------------------------------------------------------------------------------
+# modifier combinations on one attribute (`!name.`, `name.=v`, `!name=v` ...), written directly and in user snippets
+
+MODIFIER_KINDS = ['[!n.]', '[!n.=v]', '[n.=v]', '[!n=v]', '[!m.]', '[!n. m=1]', '[m=1 !n.]', '[!n. !m.]', '[n. !n]',
+                  '[!n.={e}]', '[!n.=""]', '[!hidden.]', '[!n]', '[n.]', '[n]', '[n=v]', '[m=1]', '.c']
+SNIPPET_DEF_KINDS = ['[!n.]', '[!n]', '[n.]', '[n]', '[n=v]', '[m=1]', '[!n.=v]', '[!m.]', '[!n. m=1]', '[m=1 !n.]', '.c', '#i']
+SNIPPET_USE_KINDS = ['[n=v]', '[n]', '[m=1]', '[n.]', '[!n]', '[!n.]', '.d', '#j', "[n='x']"]
+
+
+def check_modifiers(kinds, syntax, options, selfclose):
+    """one element `p` + mentions that combine the `!` / `.` modifiers with each other and with values"""
+    return _check_seq(kinds, syntax, effective(syntax, options), selfclose, True)
+
+
+def check_user_snippet(alias, tag, def_kinds, uses, syntax, options):
+    """a user-supplied snippet `alias: tag + def_kinds` predefines the shape of an element; the abbreviation writes the
+    alias once per entry of `uses` (siblings), each time with its own mentions.  Every produced tag must be <tag> with
+    spec_attrs(definition mentions + written mentions): the definition's mentions are the earlier mentions of the same
+    element.  Under output.reverseAttributes the statement does not say whether the definition or the abbreviation counts
+    as written first, so both orders are acceptable there."""
+    from emmet import expand
+    options = effective(syntax, options)
+    opts = dict(options)
+    opts['output.format'] = False
+    definition = tag + ''.join(def_kinds)
+    abbr = '+'.join(alias + ''.join(ks) for ks in uses)
+    out = expand(abbr, {'syntax': syntax, 'options': opts, 'snippets': {alias: definition}})
+    where = '%s with snippet %s: %s (%s, %r) -> %r: ' % (abbr, alias, definition, syntax, options, out)
+    try:
+        tags = _open_tags(out)
+    except MarkupError as e:
+        return where + 'not well-formed markup: %s' % e
+    if len(tags) != len(uses):
+        return where + '%d elements expected, %d found' % (len(uses), len(tags))
+    dm = _mentions_of(def_kinds)
+    for (tname, tattrs), ks in zip(tags, uses):
+        if tname != tag:
+            return where + 'tag <%s> expected, <%s> found' % (tag, tname)
+        um = _mentions_of(ks)
+        what = compare_attrs(tattrs, spec_attrs(dm + um, syntax, options, True), options)
+        if what and options.get('output.reverseAttributes'):
+            what = compare_attrs(tattrs, spec_attrs(um + dm, syntax, options, True), options) and what
+        if what:
+            return where + 'element %s%s: %s' % (alias, ''.join(ks), what)
+    return None
+
+
+def user_snippet_cases(rng, option_sets, n_random):
+    pairs = [(syn, o) for o in option_sets for syn in SYNTAXES]
+    defs = [[]] + [[a] for a in SNIPPET_DEF_KINDS] + [[a, b] for a in SNIPPET_DEF_KINDS for b in SNIPPET_DEF_KINDS]
+    uses = [[]] + [[a] for a in SNIPPET_USE_KINDS]
+    k = 0
+    for d in defs:
+        for u in uses:
+            for rep in range(2):
+                syn, o = pairs[k % len(pairs)]
+                k += 1
+                yield (['sn', 'x-t'][k % 2], ['test', 'p', 'x-t'][k % 3], d, [u], syn, o)
+    for _ in range(n_random):
+        d = [rng.choice(SNIPPET_DEF_KINDS) for _ in range(rng.randint(1, 3))]
+        us = [[rng.choice(SNIPPET_USE_KINDS) for _ in range(rng.randint(0, 3))] for _ in range(rng.randint(1, 3))]
+        syn, o = rng.choice(pairs)
+        yield (rng.choice(['sn', 'x-t', 'my:el']), rng.choice(['test', 'p', 'x-t']), d, us, syn, o)
 
 
 # ---------------------------------------------------------------------------------------------
@@ -551,4 +733,44 @@ def run(tier, seed):
                 'written alone under a fresh config, and for aliases with a plain definition spec_attrs(definition + mentions)', exhaustive=False)
     run_parallel_sorted(c4, 'bounded.c03', 'check_snippet_elements', snippet_cases(rng, n4, cover), chunk=500)
     c4.done()
-    return [c1, c2, c3, c4]
+
+    rng5 = random.Random(seed * 7919 + 5)          # own stream: the cases of the clauses above stay what they were
+    n5 = 3000 if quick else 30000
+    c5 = Clause('attr-doubled-shorthand-name-maps', 'B',
+                'all sequences of mentions from %r (doubled / tripled shorthand operators next to plain shorthands and bracket '
+                'mentions of the same names) on one element `p` under the `markup.attributes` tables %r, plus seeded random '
+                'abbreviations of 2-4 elements (0-3 such mentions each)' % (DOUBLED_KINDS, NAME_TABLES),
+                'sequence length <= 3; syntaxes %r x %d tables x %d option rows %r: lengths <= 2 under all %d (syntax, table, row) '
+                'triples, length 3 under %s; %d random multi-element cases'
+                % (SYNTAXES, len(NAME_TABLES), len(DOUBLED_OPTION_ROWS), DOUBLED_OPTION_ROWS,
+                   4 * len(NAME_TABLES) * len(DOUBLED_OPTION_ROWS), '4 triples per sequence (rotating window)' if quick else 'all triples', n5),
+                'a case is (mention sequence or elements, syntax, option row incl. table); the attribute list of every tag is compared '
+                'with spec_attrs: a doubled mention is named by the `name*` entry if the table has one, else like a plain mention',
+                exhaustive=False)
+    run_parallel_sorted(c5, 'bounded.c03', 'check_doubled', doubled_cases(DOUBLED_KINDS, 3, 2 if quick else 3, 4), chunk=1000)
+    first = list(c5.violations)
+    c5.violations = []
+    run_parallel_sorted(c5, 'bounded.c03', 'check_doubled_multi', doubled_multi_cases(rng5, n5), chunk=500)
+    c5.violations = (first[:25] + c5.violations[:25]) if first and c5.violations else (first + c5.violations)
+    c5.done()
+
+    n6 = 4000 if quick else 40000
+    c6 = Clause('attr-modifier-combinations', 'B',
+                'all sequences of mentions from %r (one attribute carrying both `!` and `.`, a modifier together with a value, '
+                'several such attributes in one set) on one element `p`; and user-supplied snippets `alias: tag + D` (D: 0-2 mentions '
+                'from %r, exhaustive; 1-3 random) used as `alias + U` (U from %r), once or as 1-3 siblings'
+                % (MODIFIER_KINDS, SNIPPET_DEF_KINDS, SNIPPET_USE_KINDS),
+                'direct: sequence length <= 3, syntaxes %r x %d option rows (as in attr-sequences-exhaustive): lengths <= 2 under all pairs, '
+                'length 3 under %s; snippets: all D of length <= 2 x U of length <= 1 (twice, (syntax, row) rotating) + %d random cases'
+                % (SYNTAXES, len(cover), '2 pairs per sequence (rotating window)' if quick else 'all pairs', n6),
+                'a case is (mention sequence, syntax, option row) or (alias, tag, definition mentions, written mentions per element, '
+                'syntax, option row); expectation spec_attrs(definition mentions + written mentions) with the strict reading '
+                '"implied without value -> dropped" for attributes whose mentions are all implied', exhaustive=False)
+    run_parallel_sorted(c6, 'bounded.c03', 'check_modifiers', seq_cases(MODIFIER_KINDS, 3, SYNTAXES, cover, full_upto=2 if quick else 3, per_seq=2),
+                        chunk=1000)
+    first = list(c6.violations)
+    c6.violations = []
+    run_parallel_sorted(c6, 'bounded.c03', 'check_user_snippet', user_snippet_cases(rng5, cover, n6), chunk=500)
+    c6.violations = (first[:25] + c6.violations[:25]) if first and c6.violations else (first + c6.violations)
+    c6.done()
+    return [c1, c2, c3, c4, c5, c6]
